@@ -2965,7 +2965,7 @@ namespace detail {
                     std::size_t index = static_cast<std::size_t>(index_);
                     return val.at(index);
                 }
-                else if ((slen + index_) >= 0 && (slen+index_) < slen)
+                else if (index_ < 0 && (slen + index_) >= 0) // (slen + index_ might not be representable for a large positive index)
                 {
                     std::size_t index = static_cast<std::size_t>(slen + index_);
                     return val.at(index);
